@@ -761,6 +761,8 @@ impl<'a, 'b> InternalDelphiLogicalLineParser<'a, 'b> {
         if let Some(TT::Keyword(KK::Of)) = self.get_current_token_type() {
             self.next_token(); // Of
         } else {
+            // The context pushed above must not outlive this function.
+            self.context.pop();
             return;
         }
         self.finish_logical_line();
